@@ -173,6 +173,19 @@ def r4_parallel(ctx):
         opt = [(g2, t2) for g2 in F.with_closures(pe) for b2, t2 in g2.body.calls() if t2["f"].get("key") == "mahf::configuration::Configuration::optimize_with"]
         good = good and len(opt) == 1
     ctx.check(good, "C08.R4", pe.key, "seed-is-run-number", "par_experiment does not seed each run's fresh state with Random::new(<run number of the work item>): %s" % why, detail=why[:200], loc=pe.loc())
+    # a generator supplied by the user's setup hook is never replaced: no insertion of a Random is reachable after the hook ran
+    hooks = 0
+    for g in F.with_closures(pe):
+        body = g.body
+        user = [b for b, t in body.calls() if (t["f"].get("trait") or "").startswith("core::ops::function") or t["f"].get("key", "").startswith("core::ops::function::Fn")]
+        ins = {b for b, t in body.calls() if t["f"].get("name") in ("insert", "insert_default", "entry") and (t["f"].get("gargs") or [""])[0] == "mahf::state::random::Random"}
+        for b in user:
+            hooks += 1
+            after = body.reachable_from(body.term(b)["target"]) if body.term(b).get("target") is not None else set()
+            late = sorted(ins & set(after))
+            ctx.check(not late, "C08.R4", g.key, "user-generator-survives-setup",
+                      "a Random is inserted after the user's setup hook ran (bb%s): a generator the user supplied there is silently replaced" % late, loc=g.loc(body.term(late[0]).get("line")) if late else g.loc())
+    ctx.floor("C08.R4", "user setup hook calls in par_experiment", hooks, 1)
 
 
 class ProxyCtx:
